@@ -148,6 +148,8 @@ def explore_E(chunk):
             variant("parentheses-element", L.render(t2)[0])
         for t2 in L.bracket_literal_paren_variants(tokens):
             variant("parentheses-literal", L.render(t2)[0])
+        for t2 in L.key_paren_variants(tokens):
+            variant("parentheses-key", L.render(t2)[0])
         for t2 in L.operand_paren_variants(tokens):
             variant("parentheses-operand", L.render(t2)[0])
         for t2 in L.semicolon_variants(tokens):
